@@ -156,8 +156,16 @@ def parse_assumptions(log):
     return axioms, closed
 
 
+# primitive types/operations of Coq's native floats and integers (not axioms of ours; printed
+# by Print Assumptions because they have no body)
+PRIMITIVES = {"float", "int", "of_uint63", "normfr_mantissa", "frshiftexp", "ldshiftexp", "next_up", "next_down",
+              "array"}
+
+
 def axiom_ok(a):
-    return a in ALLOWED_AXIOMS or a.startswith(ALLOWED_PREFIX) or any(a.endswith("." + x.split(".")[-1]) and x.split(".")[-1] in a for x in ALLOWED_AXIOMS)
+    last = a.split(".")[-1]
+    return (a in ALLOWED_AXIOMS or a.startswith(ALLOWED_PREFIX) or a in PRIMITIVES
+            or last in {x.split(".")[-1] for x in ALLOWED_AXIOMS})
 
 
 def prove(pid, extra_targets=()):
